@@ -218,9 +218,9 @@ fn containers(rep: &Report, e: &Entry) {
                     let (w, g) = if f32s { ((want[k] as f32) as f64, got[i][k]) } else { (want[k], got[i][k]) };
                     if bits(w) != bits(g) {
                         // pipelines store their intermediate results in the caller's container: one key per
-                        // kind of loss, not per definition (see DESIGN.md, known finding)
+                        // kind of loss and definition (a coarser key would hide any new container defect of another pipeline)
                         let key = if !e.elementary && (stored < 4 || f32s) {
-                            format!("pipeline through a container storing {} loses intermediate results", if f32s { "32 bit values".to_string() } else { format!("{stored} dimensions") })
+                            format!("pipeline through a container storing {} loses intermediate results / {}", if f32s { "32 bit values".to_string() } else { format!("{stored} dimensions") }, e.def)
                         } else {
                             format!("container {name} gives a different value than the 4D tuple / {} [{dn}]", e.def)
                         };
